@@ -190,6 +190,10 @@ void mp::internal::TextReader<Locale>::ReadHeader(NLHeader &header) {
     double tmp;
     if (!ReadOptionalDouble(tmp))
       break;
+    // (long)tmp is undefined for NaN and for values outside the range of long.
+    if (!(tmp >= static_cast<double>(std::numeric_limits<long>::min()) &&
+          tmp < -static_cast<double>(std::numeric_limits<long>::min())))
+      break;
     header.ampl_options[i] = (long)tmp;
     if (header.ampl_options[i] != tmp)
       break;
